@@ -170,6 +170,22 @@ def main(argv):
                         fail("roundtrip#fixpoint_text", wit, dict(first=text, second=str(t2)))
                 if len(samples) < 2:
                     samples.append(dict(program=name, std=std, options=kw, nodes=len(all_nodes(tree))))
+    if "C18" in only:
+        # trees parsed through a file reader (the reader is a constructor argument of the root node)
+        from fparser.common.readfortran import FortranFileReader
+        from fparser.two.parser import ParserFactory
+        with tempfile.TemporaryDirectory() as dd:
+            fn = os.path.join(dd, "plain.f90")
+            open(fn, "w").write(CATALOGUE["plain"])
+            cases += 1
+            tree = ParserFactory().create(std="f2003")(FortranFileReader(fn))
+            for how, fnc in (("deepcopy", copy.deepcopy), ("pickle", lambda t: pickle.loads(pickle.dumps(t)))):
+                try:
+                    c = fnc(tree)
+                    if str(c) != str(tree):
+                        fail("tree#deepcopy.file_reader", dict(how=how, program="plain"), dict(copy=str(c)[:200]))
+                except BaseException as e:  # noqa
+                    fail("tree#deepcopy.file_reader", dict(how=how, program="plain"), "%s: %s" % (type(e).__name__, str(e)[:120]))
     if "C08" in only:
         base = CATALOGUE["plain"] + CATALOGUE["module"] + "subroutine k(w, n)\n  real, dimension(n) :: w\n  integer, intent(in) :: n\n  associate (a => w(1), b => (w(2) + 1.0))\n    a = b\n  end associate\n  open(unit=10, file='x')\n  nullify(p)\nend subroutine k\n"
         lines = base.splitlines()
@@ -297,7 +313,17 @@ def main(argv):
                         except BaseException as e:  # noqa
                             fail("error#garbage_rejected", dict(source=src), "raised %s" % type(e).__name__)
     if "C14" in only:
-        directives = ["#ifdef X", "#ifndef Y", "#if defined(A) && B", "#elif C", "#else", "#endif", "#include \"f.h\"", "#define N 3", "#undef N",
+        # a directive in front of a main program without PROGRAM statement stays where it was
+        for d in ("#ifdef X", "#define N 3"):
+            src = d + "\n x = 1\nend\n"
+            cases += 1
+            try:
+                txt = str(parse(src, "f2003"))
+                if txt.splitlines()[0].strip() != d:
+                    fail("cpp#directive_before_anonymous_main_program", dict(source=src), dict(printed=txt))
+            except BaseException as e:  # noqa
+                fail("cpp#directive_before_anonymous_main_program", dict(source=src), "%s: %s" % (type(e).__name__, str(e)[:120]))
+        directives = ["#define X a;b", "#ifdef X", "#ifndef Y", "#if defined(A) && B", "#elif C", "#else", "#endif", "#include \"f.h\"", "#define N 3", "#undef N",
                       "#line 7 \"a.f90\"", "#error stop here", "#warning careful", "#", "# 12 \"x.f90\" 2", "#define LONG a + \\\n   b"]
         from fparser.two import C99Preprocessor as C99
         from fparser.two.utils import walk
